@@ -29,6 +29,7 @@ import (
 	"verif/memnet"
 	"verif/peer"
 	"verif/refcodec"
+	"verif/udpsrv"
 	"verif/wire"
 )
 
@@ -510,8 +511,9 @@ func TestCheck(t *testing.T) {
 	engines := []evid.Engine{eng}
 	engines = append(engines, serverEngines()...)
 	engines = append(engines, realEngine())
+	engines = append(engines, udpsrv.Engine(r, []string{"closed"}, 8, 200))
 	r.Main(evid.Meta{
-		Rule:        "interrupt: a client connection (datagram / stream) in a synctest bubble runs one blocking operation (GET, block-wise POST, large POST, observe registration, observation cancel (from the application's goroutine and from inside the observe callback), ping, confirmable / non-confirmable one-way write), optionally queued behind the parallel-request limiter or NSTART, against a scripted peer (silent, ACK only, unrelated traffic, first j blocks then silence, stops reading, closes); quiescence establishes that the call is blocked; then the interruption (context cancel, context deadline, local Close from 1-4 goroutines, peer close), before or during the call; after 5 virtual seconds and one housekeeping tick the call must have returned with an error; then Close (twice, concurrently): returns, done signal closed, every on-close callback ran exactly once (the first one registers 0-3 further callbacks while it runs, which must not disturb the others), other calls on the connection ended, no library goroutine left blocked. servers: tcp and dtls servers on in-memory listeners with clients in flight, Stop from several goroutines, Serve returns. real: GET / observe registration against a handler that never answers, and Server.Discover against a silent peer, over UDP, DTLS-PSK, TCP and TLS loopback sockets with the library's own servers and Dial clients, interrupted by cancel, deadline, Close from 1-4 goroutines or server Stop; 5 real seconds of allowance; a failure counts only if it reproduces three times in a row. Non-trivial = the call was really blocked at the interruption (class block/really-blocked); all scenarios are distinct by construction of the key",
+		Rule:        "interrupt: a client connection (datagram / stream) in a synctest bubble runs one blocking operation (GET, block-wise POST, large POST, observe registration, observation cancel (from the application's goroutine and from inside the observe callback), ping, confirmable / non-confirmable one-way write), optionally queued behind the parallel-request limiter or NSTART, against a scripted peer (silent, ACK only, unrelated traffic, first j blocks then silence, stops reading, closes); quiescence establishes that the call is blocked; then the interruption (context cancel, context deadline, local Close from 1-4 goroutines, peer close), before or during the call; after 5 virtual seconds and one housekeeping tick the call must have returned with an error; then Close (twice, concurrently): returns, done signal closed, every on-close callback ran exactly once (the first one registers 0-3 further callbacks while it runs, which must not disturb the others), other calls on the connection ended, no library goroutine left blocked. servers: tcp and dtls servers on in-memory listeners with clients in flight, Stop from several goroutines, Serve returns. real: GET / observe registration against a handler that never answers, and Server.Discover against a silent peer, over UDP, DTLS-PSK, TCP and TLS loopback sockets with the library's own servers and Dial clients, interrupted by cancel, deadline, Close from 1-4 goroutines or server Stop; 5 real seconds of allowance; a failure counts only if it reproduces three times in a row. " + udpsrv.Rule + ". Non-trivial = the call was really blocked at the interruption (class block/really-blocked); all scenarios are distinct by construction of the key",
 		Assumptions: []string{"connections built over a caller-owned socket without WithCloseSocket are out of domain", "write stalls are generated with a socket-like bounded buffer, not a zero-buffer pipe"},
 		Floor:       300,
 	}, engines...)
